@@ -43,6 +43,22 @@ pub enum Op {
 }
 
 impl Op {
+    pub fn name(&self) -> &'static str {
+        match self {
+            Op::Add { .. } => "Add",
+            Op::Append { .. } => "Append",
+            Op::Del { .. } => "Del",
+            Op::AddMany { .. } => "AddMany",
+            Op::DelMany { .. } => "DelMany",
+            Op::Clear { .. } => "Clear",
+            Op::Build { .. } => "Build",
+            Op::ChangeMetric { .. } => "ChangeMetric",
+            Op::Search { .. } => "Search",
+            Op::Commit => "Commit",
+            Op::Abort => "Abort",
+        }
+    }
+
     pub fn idx(&self) -> Option<u16> {
         match self {
             Op::Add { idx, .. }
